@@ -710,6 +710,65 @@ impl Model {
             }
         }
 
+        // ---------------- C19: token-factory messages as the target chain's module sees them
+        if self.on("C19") {
+            for e in &res.events {
+                let (url, sender, denom, amount, holder, raw, opname): (&String, &String, &String, u128, Option<&String>, &Vec<u8>, &str) = match e {
+                    Ev::TfCreate { url, sender, denom, raw, .. } => (url, sender, denom, 0, None, raw, "MsgCreateDenom"),
+                    Ev::TfMint { url, sender, denom, amount, to, raw } => (url, sender, denom, *amount, Some(to), raw, "MsgMint"),
+                    Ev::TfBurn { url, sender, denom, amount, from, raw } => (url, sender, denom, *amount, Some(from), raw, "MsgBurn"),
+                    _ => continue,
+                };
+                let want_url = format!("{}{}", sc.w.kind.tf_prefix(), opname);
+                if url != &want_url {
+                    v.push(Viol { prop: "C19", what: format!("token-factory message has type URL {url}, the target chain's module expects {want_url}") });
+                }
+                if sender != q || holder.map(|h| h != q).unwrap_or(false) {
+                    v.push(Viol { prop: "C19", what: format!("{opname}: sender {sender} / holder {holder:?} is not the contract {q}") });
+                }
+                if denom != t {
+                    v.push(Viol { prop: "C19", what: format!("{opname}: denom {denom}, expected {t}") });
+                }
+                // canonical bytes: the harness's own writer must reproduce them
+                let mut enc = vec![];
+                prim::put_str(&mut enc, 1, q);
+                match opname {
+                    "MsgCreateDenom" => prim::put_str(&mut enc, 2, t.rsplit('/').next().unwrap_or("")),
+                    "MsgMint" => {
+                        prim::put_bytes(&mut enc, 2, &prim::enc_coin(t, amount));
+                        prim::put_str(&mut enc, 3, q);
+                    }
+                    _ => {
+                        prim::put_bytes(&mut enc, 2, &prim::enc_coin(t, amount));
+                        if sc.w.kind == ChainKind::Osmosis {
+                            prim::put_str(&mut enc, 3, q);
+                        }
+                    }
+                }
+                if &enc != raw {
+                    v.push(Viol { prop: "C19", what: format!("{opname}: emitted bytes are not the canonical encoding of (sender, {t}, {amount}, holder)") });
+                }
+                if opname == "MsgMint" && is_stake {
+                    let (n0, l0) = if pre.l == 0 { (0u128, 0u128) } else { (pre.n, pre.l) };
+                    let rm = if n0 == 0 { Some(paid_s) } else { prim::mul_div_floor(paid_s, l0, n0) };
+                    if rm != Some(amount) {
+                        v.push(Viol { prop: "C19", what: format!("MsgMint amount {amount}, reference {rm:?}") });
+                    }
+                }
+                if opname == "MsgBurn" && is_submit && amount != pre.pending.total {
+                    v.push(Viol { prop: "C19", what: format!("MsgBurn amount {amount}, batch total {}", pre.pending.total) });
+                }
+                self.seen("C19", format!("{opname}|{}|{}", regime(pre.n, pre.l), (amount % 7)));
+                self.count(&format!("c19:{opname}"));
+            }
+            if res.ok && is_stake && !res.events.iter().any(|e| matches!(e, Ev::TfMint { .. })) {
+                v.push(Viol { prop: "C19", what: "successful stake without a token-factory mint".into() });
+            }
+            if res.ok && is_submit && !res.events.iter().any(|e| matches!(e, Ev::TfBurn { .. })) {
+                v.push(Viol { prop: "C19", what: "successful submission without a token-factory burn".into() });
+            }
+        }
+
         // ---------------- C15
         if self.on("C15") {
             let posts: Vec<(String, String, String, String)> = res.events.iter().filter_map(|e| if let Ev::Oracle { oracle, denom, purchase, redemption, .. } = e { Some((oracle.clone(), denom.clone(), purchase.clone(), redemption.clone())) } else { None }).collect();
